@@ -50,6 +50,22 @@ def named_dataset(rng, nmax=6, mmax=4):
     return D
 
 
+def digit_component_dataset(rng):
+    """string-named dataset (at least one non-digit name) in which a strongly connected component consists of
+    digit-like names only: its sub-problem, taken alone, would be an all-integer dataset"""
+    letters = rng.sample(["a", "b", "zz"], rng.randint(1, 2))
+    digits = rng.sample(["1", "2", "3", "10", "20", "7"], rng.randint(3, 4))
+    rots = [digits[i:] + digits[:i] for i in range(len(digits))]
+    D = []
+    for rot in rng.sample(rots, rng.randint(2, len(rots))):
+        r = [[x] for x in letters if rng.random() < 0.9] + [[e] for e in rot]
+        D.append(r)
+    if rng.random() < 0.4:
+        D.append([[x] for x in letters])
+    rng.shuffle(D)
+    return D
+
+
 class WellFormed(Suite):
     name = "wellformed"
     imports = ["Parser", "DatasetModel", "Judge.JC16", "Judge.JC03"]
@@ -58,6 +74,9 @@ class WellFormed(Suite):
 
     def gen(self, tier, rng):
         cases = [{"s": gen.UNIFYING, "D": [[["only"]]], "one": True}, {"s": gen.UNIFYING, "D": [[[7]], []], "one": False}]
+        for _ in range(25 if tier == "quick" else 300):
+            cases.append({"s": rng.choice([gen.UNIFYING, gen.PSEUDO, gen.INDUCED, gen.GENERIC]), "D": digit_component_dataset(rng),
+                          "one": rng.random() < 0.5})
         for _ in range(160 if tier == "quick" else 2500):
             cases.append({"s": rng.choice([gen.UNIFYING, gen.UNIFYING, gen.INDUCED, gen.PSEUDO, gen.EXTENDED, gen.GENERIC]),
                           "D": named_dataset(rng), "one": rng.random() < 0.5})
